@@ -111,7 +111,7 @@ double scale_near(const std::vector<double>& X, const std::vector<double>& Y, do
 }
 }	// namespace
 
-VCLAUSE(history_1d, 24000, 6000, 60000, "the sequence contains runs of >= 3 correlated steps in each direction, a far jump after such a run, a knot query reached by hunting, and a copy")
+VCLAUSE(history_1d, 60000, 6000, 60000, "the sequence contains runs of >= 3 correlated steps in each direction, a far jump after such a run, a knot query reached by hunting, and a copy")
 {
 	Src& s = c.s;
 	int sz = s.size;
@@ -254,15 +254,23 @@ VCLAUSE(history_1d, 24000, 6000, 60000, "the sequence contains runs of >= 3 corr
 				sl.pos = seg_of(X, std::max(x, x2));
 				last_x = x2;
 				VLOG(c, "op " << op << " slot " << si << " Integrate(" << x << "," << x2 << ") = " << v);
-				if(!knot && !is_knot(X, x2))
-					VCHECK(same_bits(v, r), "op " << op << ": Integrate(" << x << "," << x2 << ") used = " << v << ", fresh = " << r);
-				else
+				double scI = 0;
 				{
-					double scI = 0;
 					int j1 = seg_of(X, std::min(x, x2)), j2 = seg_of(X, std::max(x, x2));
 					for(int k = std::max(j1 - 1, 0); k <= std::min(j2 + 1, N - 2); k++)
 						scI += std::max(std::fabs(Y[k]), std::fabs(Y[k + 1])) * (std::max(std::fabs(X[k]), std::fabs(X[k + 1])) + (X[k + 1] - X[k]));
+				}
+				if(!knot && !is_knot(X, x2))
+					VCHECK(same_bits(v, r), "op " << op << ": Integrate(" << x << "," << x2 << ") used = " << v << ", fresh = " << r);
+				else
 					VCLOSE(c, "knot_integral", v, r, 64 * EPS * scI * std::fabs(sl.P), "op " << op << ": Integrate with a limit at a knot, used vs fresh");
+				// independent of Set_Prefactor: P times the integral of the never-scaled object
+				if(op % 3 == 0)
+				{
+					Interpolation unit = tb.pristine;
+					double u = 0;
+					VMUST_RETURN("Integrate (unscaled model)", u = unit.Integrate(x, x2));
+					VCLOSE(c, "integral_scales_with_prefactor", v, sl.P * u, 64 * EPS * scI * std::fabs(sl.P), "op " << op << ": Integrate(" << x << "," << x2 << ") must be P=" << sl.P << " times the integral of the unscaled object");
 				}
 			}
 			else if(kind == 4)
@@ -281,6 +289,17 @@ VCLAUSE(history_1d, 24000, 6000, 60000, "the sequence contains runs of >= 3 corr
 					VCHECK(same_bits(v, r), "op " << op << ": Local extremum on [" << a << "," << b << "] used = " << v << ", fresh = " << r);
 				else
 					VCLOSE(c, "knot_extremum", v, r, 128 * EPS * std::max(scale_near(X, Y, a), scale_near(X, Y, b)) * std::fabs(sl.P), "op " << op << ": local extremum with a limit at a knot");
+				if(op % 3 == 0)
+				{
+					// P times the extremum of the never-scaled object (a negative prefactor exchanges minimum and maximum)
+					Interpolation unit = tb.pristine;
+					bool umx = (sl.P < 0) ? !mx : mx;
+					double u = 0, ymag = 0;
+					VMUST_RETURN("Local extremum (unscaled model)", u = umx ? unit.Local_Maximum(a, b) : unit.Local_Minimum(a, b));
+					for(int k = std::max(seg_of(X, a) - 1, 0); k <= std::min(seg_of(X, b) + 2, N - 1); k++)
+						ymag = std::max(ymag, std::fabs(Y[k]));
+					VCLOSE(c, "local_extremum_scales_with_prefactor", v, sl.P * u, 128 * EPS * ymag * std::fabs(sl.P), "op " << op << ": local extremum on [" << a << "," << b << "] must be P=" << sl.P << " times the " << (umx ? "maximum" : "minimum") << " of the unscaled object");
+				}
 			}
 			else
 			{
@@ -303,6 +322,14 @@ VCLAUSE(history_1d, 24000, 6000, 60000, "the sequence contains runs of >= 3 corr
 			Interpolation g = fresh();
 			VMUST_RETURN("Global extrema", v = sl.obj.Global_Minimum(); w = sl.obj.Global_Maximum(); r = g.Global_Minimum(); q = g.Global_Maximum());
 			VCHECK(same_bits(v, r) && same_bits(w, q), "op " << op << ": global extrema used (" << v << "," << w << ") fresh (" << r << "," << q << ")");
+			{
+				Interpolation unit = tb.pristine;
+				double um = 0, uM = 0;
+				VMUST_RETURN("Global extrema (unscaled model)", um = unit.Global_Minimum(); uM = unit.Global_Maximum());
+				double em = sl.P >= 0 ? sl.P * um : sl.P * uM, eM = sl.P >= 0 ? sl.P * uM : sl.P * um;
+				VCLOSE(c, "global_extrema_scale_with_prefactor", v, em, 4 * EPS * std::fabs(em), "op " << op << ": Global_Minimum with P=" << sl.P);
+				VCLOSE(c, "global_extrema_scale_with_prefactor", w, eM, 4 * EPS * std::fabs(eM), "op " << op << ": Global_Maximum with P=" << sl.P);
+			}
 		}
 		else if(kind == 7)
 		{
@@ -358,7 +385,7 @@ VCLAUSE(history_1d, 24000, 6000, 60000, "the sequence contains runs of >= 3 corr
 		c.cls("hunt_both_directions");
 }
 
-VCLAUSE(history_2d, 6000, 6000, 100000, "the sequence contains correlated steps along both axes, a query on a grid line and a copy")
+VCLAUSE(history_2d, 12000, 6000, 100000, "the sequence contains correlated steps along both axes, a query on a grid line and a copy")
 {
 	Src& s = c.s;
 	int sz = std::min(s.size, 100);
